@@ -90,6 +90,20 @@ def build(rng, tier):
                     inst = f"{pid}_{j}_{k}"
                     ops = [f"eng new {inst} {pid} par {t}"] + engcheck.load_ops(inst, inp) + [f"eng runtopp {inst} {k} {t}", f"eng dump {inst}", f"eng runpp {inst} {t}", f"eng dump {inst}"]
                     cases.append(engcheck.Case(pid, inst, ops, {"inp": inp, "kind": "par-single", "k": k, "threads": t}))
+    # ... and with LATTICES: Model/EnginePhysParLatTimeout.lean, `eng runtoppl <inst> <k> <threads>` then `eng runppl`
+    if os.path.exists(os.path.join(core.LEAN, "AscentVerif", "Model", "EnginePhysParLatTimeout.lean")):
+        for i, p in enumerate(engcheck.make_programs(rng.fork("c14latpar"), 3 if tier == "quick" else 12, genf=gen.gen_lat_program, filt=gen.lat_ok)):
+            pid = f"tlp{i}"
+            progs[pid] = p
+            mods.append((pid, eng.rs_module(pid, p, macro="ascent_par", attrs=("generate_run_timeout",))))
+            for j in range(2 if tier == "quick" else 6):
+                r2 = rng.fork(f"{pid}t{j}")
+                inp = gen.gen_lat_input(r2, p)
+                t = r2.choice([1, 2, 4, 8])
+                for k in range(MAXK if tier != "quick" else 8):
+                    inst = f"{pid}_{j}_{k}"
+                    ops = [f"eng new {inst} {pid} par {t}"] + engcheck.load_ops(inst, inp) + [f"eng runtoppl {inst} {k} {t}", f"eng dump {inst}", f"eng runppl {inst} {t}", f"eng dump {inst}"]
+                    cases.append(engcheck.Case(pid, inst, ops, {"inp": inp, "kind": "par-lattice-single", "k": k, "lat": True, "threads": t}))
     # a BYODS relation (`#[ds(trrel)]`: its rows live in the index, the `rel` field is a FakeVec) fed by FACTS, read by a long recursive stratum and by a later one:
     # an interrupted call drops the indices the interrupted stratum took out of the struct - for a BYODS relation that is its content - and the resumed call must
     # re-evaluate the fact strata (the model side is the explicit-closure twin; the real side is judged by the oracle on the plain relations)
@@ -111,7 +125,7 @@ def build(rng, tier):
 
 
 def is_run(o):
-    return any(o.startswith(f"eng {x} ") for x in ("run", "runp", "runpl", "runpp"))
+    return any(o.startswith(f"eng {x} ") for x in ("run", "runp", "runpl", "runpp", "runppl"))
 
 
 def tagged_module(pid, p, attrs):
